@@ -254,10 +254,10 @@ func callTo(objs ...*types.Func) Sel {
 			if !cal.Invoke && ir.Implements(cal.Func, o) {
 				return true
 			}
-			if cal.Invoke && ir.Implements(o, cal.Func) {
-				// invoke of a wider interface's method that o implements:
-				// only when o is itself concrete; accepted (may-alias).
-				continue
+			// a narrowed dependency: the invoke goes through a small interface
+			// the module declares for the methods one function uses
+			if cal.Invoke && narrowSeam(cal.Func) && ir.NarrowedInvoke(cal.Func, o) {
+				return true
 			}
 		}
 		return false
@@ -407,4 +407,19 @@ func (c *Ctx) onCache() *Ctx {
 		panic(anchorErr{"cache module program"})
 	}
 	return &Ctx{P: c.P.Cache, R: c.R, Tier: c.Tier, cur: c.cur}
+}
+
+// narrowSeam: im is a method of an unexported interface declared in one of
+// the neutrino modules (the only place a narrowed dependency is introduced).
+func narrowSeam(im *types.Func) bool {
+	if im == nil || im.Pkg() == nil || !strings.HasPrefix(im.Pkg().Path(), ir.ModPath) {
+		return false
+	}
+	sig, ok := im.Type().(*types.Signature)
+	if !ok || sig.Recv() == nil {
+		return false
+	}
+	t := sig.Recv().Type()
+	n, ok := t.(*types.Named)
+	return ok && !n.Obj().Exported()
 }
